@@ -1,6 +1,7 @@
 package vval
 
 import (
+	"strings"
 	"sort"
 
 	"github.com/cosmos/cosmos-proto/internal/verifh/vschema"
@@ -17,6 +18,8 @@ type StreamGen struct {
 	G        *GenOpts
 	Features map[string]bool
 	MaxDepth int
+	// plainTags > 0 while generating the content of a message type that is not implemented by the generated code
+	plainTags int
 }
 
 func (g *StreamGen) feat(f string) { g.Features[f] = true }
@@ -108,12 +111,40 @@ func (g *StreamGen) scalarPayload(b []byte, k vschema.Kind) []byte {
 
 func (g *StreamGen) unknownRecord(b []byte, used map[int]bool) []byte {
 	g.feat("unknown")
-	return append(b, UnknownTail(g.R, used, 0)...)
+	tail := UnknownTail(g.R, used, 0)
+	if g.plainTags == 0 && g.R.Chance(15) {
+		// the tag of the first unknown record encoded with more bytes than needed (same number, same wire type)
+		if _, n := protowire.ConsumeVarint(tail); n > 0 && n < 9 {
+			g.feat("nonminimal-tag")
+			enc := append([]byte{}, tail[:n]...)
+			enc[n-1] |= 0x80
+			for i := g.R.Intn(3); i > 0 && len(enc) < 9; i-- {
+				enc = append(enc, 0x80)
+			}
+			enc = append(enc, 0x00)
+			tail = append(enc, tail[n:]...)
+		}
+	}
+	return append(b, tail...)
+}
+
+// appendTag: the key of a record, now and then encoded with more bytes than needed (valid for every decoder)
+func (g *StreamGen) appendTag(b []byte, num protowire.Number, wt protowire.Type) []byte {
+	enc := protowire.AppendTag(nil, num, wt)
+	if g.plainTags == 0 && g.R.Chance(4) && len(enc) < 9 {
+		g.feat("nonminimal-tag")
+		enc[len(enc)-1] |= 0x80
+		for i := g.R.Intn(2); i > 0; i-- {
+			enc = append(enc, 0x80)
+		}
+		enc = append(enc, 0x00)
+	}
+	return append(b, enc...)
 }
 
 func (g *StreamGen) elemRecord(b []byte, f *vschema.Field, depth int) []byte {
 	if f.IsMsg {
-		b = protowire.AppendTag(b, protowire.Number(f.Num), protowire.BytesType)
+		b = g.appendTag(b, protowire.Number(f.Num), protowire.BytesType)
 		var sub []byte
 		if depth < g.MaxDepth {
 			sub = g.Message(f.Msg, depth+1)
@@ -121,13 +152,20 @@ func (g *StreamGen) elemRecord(b []byte, f *vschema.Field, depth int) []byte {
 		b = g.appendVarint(b, uint64(len(sub)))
 		return append(b, sub...)
 	}
-	b = protowire.AppendTag(b, protowire.Number(f.Num), wireTypeOf(f.Kind))
+	b = g.appendTag(b, protowire.Number(f.Num), wireTypeOf(f.Kind))
 	return g.scalarPayload(b, f.Kind)
 }
 
 // Message: a well-typed record sequence for message index mi.
 func (g *StreamGen) Message(mi int, depth int) []byte {
 	m := &g.S.Msgs[mi]
+	if strings.HasPrefix(m.FullName, "google.protobuf.") {
+		// a message type implemented by protobuf-go itself (well-known type): its table-driven decoder re-encodes
+		// the tags of the unknown records it keeps, so over-long tags are not comparable there (and say nothing
+		// about the generated code)
+		g.plainTags++
+		defer func() { g.plainTags-- }()
+	}
 	var b []byte
 	if len(m.Fields) == 0 {
 		if g.R.Chance(30) {
@@ -190,14 +228,14 @@ func (g *StreamGen) Message(mi int, depth int) []byte {
 				for j := 0; j < cnt; j++ {
 					body = g.scalarPayload(body, f.Kind)
 				}
-				b = protowire.AppendTag(b, protowire.Number(f.Num), protowire.BytesType)
+				b = g.appendTag(b, protowire.Number(f.Num), protowire.BytesType)
 				b = g.appendVarint(b, uint64(len(body)))
 				b = append(b, body...)
 			} else {
 				b = g.elemRecord(b, f, depth)
 			}
 		case vschema.Map:
-			b = protowire.AppendTag(b, protowire.Number(f.Num), protowire.BytesType)
+			b = g.appendTag(b, protowire.Number(f.Num), protowire.BytesType)
 			var body []byte
 			parts := g.R.Intn(5)
 			nk, nv := 0, 0
